@@ -497,6 +497,8 @@ impl ContinuityStore {
 
         let mut tail_bytes = INITIAL_TAIL_BYTES;
         while tail_bytes <= MAX_TAIL_BYTES {
+            #[cfg(feature = "verif")]
+            rip_kernel::verif::tick("tail_window");
             match self.stream_cache.scan_tail_messages_runs_v1(
                 continuity_id,
                 MAX_TAIL_EVENTS,
@@ -1488,6 +1490,8 @@ impl ContinuityStore {
         while tail_bytes <= MAX_TAIL_BYTES
             && (last_schedule_decision.is_none() || last_job_outcome.is_none())
         {
+            #[cfg(feature = "verif")]
+            rip_kernel::verif::tick("tail_window");
             match self
                 .stream_cache
                 .scan_tail(thread_id, MAX_TAIL_EVENTS, tail_bytes)
@@ -1756,6 +1760,8 @@ impl ContinuityStore {
         let mut tail_bytes = INITIAL_TAIL_BYTES;
         let mut scanned_sidecar = false;
         while tail_bytes <= MAX_TAIL_BYTES {
+            #[cfg(feature = "verif")]
+            rip_kernel::verif::tick("tail_window");
             match self
                 .stream_cache
                 .scan_tail(thread_id, MAX_TAIL_EVENTS, tail_bytes)
@@ -1940,6 +1946,8 @@ impl ContinuityStore {
         let mut target: Option<(String, Option<String>, Option<String>)> = None;
         let mut tail_bytes = INITIAL_TAIL_BYTES;
         while tail_bytes <= MAX_TAIL_BYTES && target.is_none() {
+            #[cfg(feature = "verif")]
+            rip_kernel::verif::tick("tail_window");
             match self
                 .stream_cache
                 .scan_tail(thread_id, MAX_TAIL_EVENTS, tail_bytes)
@@ -2053,6 +2061,8 @@ impl ContinuityStore {
         let mut scanned_sidecar = false;
         let mut tail_bytes = INITIAL_TAIL_BYTES;
         while tail_bytes <= MAX_TAIL_BYTES && decisions.len() < limit {
+            #[cfg(feature = "verif")]
+            rip_kernel::verif::tick("tail_window");
             match self
                 .stream_cache
                 .scan_tail(thread_id, MAX_TAIL_EVENTS, tail_bytes)
